@@ -35,6 +35,8 @@ impl<'a> TxFreelist {
 
     pub(crate) fn free(&mut self, page_id: PageID, num_pages: u64) {
         debug_assert!(num_pages > 0, "cannot free zero pages");
+        #[cfg(feature = "verif-hooks")]
+        crate::verif_hooks::emit("free", &[page_id, num_pages], &[]);
         for id in page_id..(page_id + num_pages) {
             // Deleting a nested bucket and then one of its ancestors walks the same
             // committed pages twice; a page must only be handed back once.
@@ -66,6 +68,8 @@ impl<'a> TxFreelist {
             }
         };
 
+        #[cfg(feature = "verif-hooks")]
+        crate::verif_hooks::emit("alloc", &[bytes, num_pages, page_id], &[]);
         let ptr = self
             .arena
             .alloc_layout(Layout::from_size_align(bytes as usize, 8)?);
@@ -179,6 +183,20 @@ impl Freelist {
     pub(crate) fn size(&self) -> u64 {
         let count = self.pages().len() as u64;
         HEADER_SIZE + (PAGE_ID_SIZE * count)
+    }
+
+    /// [n_free, free..., n_pending, (tx, count, pages...)...]
+    #[cfg(feature = "verif-hooks")]
+    pub(crate) fn verif_dump(&self) -> Vec<u64> {
+        let mut v = vec![self.free_pages.len() as u64];
+        v.extend(self.free_pages.iter().cloned());
+        v.push(self.pending_pages.len() as u64);
+        for (tx, pages) in self.pending_pages.iter() {
+            v.push(*tx);
+            v.push(pages.len() as u64);
+            v.extend(pages.iter().cloned());
+        }
+        v
     }
 }
 
